@@ -1,6 +1,7 @@
 #include <occa/internal/core/device.hpp>
 #include <occa/internal/core/kernel.hpp>
 #include <occa/internal/core/memory.hpp>
+#include <occa/internal/utils/verif.hpp>
 
 namespace occa {
   modeKernel_t::modeKernel_t(modeDevice_t *modeDevice_,
@@ -11,10 +12,12 @@ namespace occa {
     name(name_),
     sourceFilename(sourceFilename_),
     properties(properties_) {
+    OCCA_VERIF_CREATED(kKernel);
     modeDevice->addKernelRef(this);
   }
 
   modeKernel_t::~modeKernel_t() {
+    OCCA_VERIF_DESTROYED(kKernel);
     // NULL all wrappers
     while (kernelRing.head) {
       kernel *k = (kernel*) kernelRing.head;
